@@ -1,2 +1,85 @@
+import Gopki.Lemmas.DerLemmas
+import Gopki.Lemmas.IntLemmas
 import Gopki.Spec.Ext
 import Gopki.Model.V1
+/-! # C07 — structured RFC 5280 extensions encode exactly the configured content
+
+Round trips between the model's encoders (`Gopki.Model.Extensions`, tied to the implementation byte for
+byte by the `ext` and `pki` operations) and the decoders written from the RFC's ASN.1 (`Gopki.Spec.Ext`). -/
+namespace C07
+open Der Asn1 X509 SpecExt
+
+set_option maxRecDepth 16000 in
+/-- **key usage, complete**: for each of the 128 subsets of the seven flags the value is the DER named bit
+    list (trailing zero bits removed, empty list = `03 01 00`) with exactly those bits -/
+theorem C07_keyusage_bits : ∀ m ∈ List.range 128,
+    decKeyUsage (Cert.keyUsageTlv (2 * m)).enc = some ((List.range 7).filter fun i => (2 * m) / (2 ^ (7 - i)) % 2 = 1) := by
+  decide
+
+/-- the flag names of the configuration language map to the named bits of RFC 5280 -/
+theorem C07_keyusage_names : V1.keyUsageMasks.map (fun (n, mask) => (n, (List.range 8).filter fun i => mask / (2 ^ (7 - i)) % 2 = 1)) =
+    [("digitalSignature", [0]), ("nonRepudiation", [1]), ("keyEncipherment", [2]), ("dataEncipherment", [3]), ("keyAgreement", [4]),
+     ("keyCertSign", [5]), ("crlSign", [6])] := by decide
+
+theorem decInt_natIntBytes (n : Nat) : decInt (natIntBytes n) = some (n : Int) := by
+  have hn := beNat_natBE n
+  unfold natIntBytes
+  cases hb : natBE n with
+  | nil => rw [hb] at hn; simp [beNat] at hn; subst hn; simp [decInt, beNat]
+  | cons b bs =>
+    rw [hb] at hn
+    simp only
+    split
+    · simp only [decInt]
+      have h0 : ¬ ((0 : UInt8) ≥ 128) := by decide
+      simp only [h0, if_false]
+      rw [beNat_cons]; simp [hn]
+    · rename_i hlt
+      simp only [decInt, hlt, if_false, hn]
+
+theorem encLen_length_small (n : Nat) (h : n < 128) : (encLen n).length = 1 := by
+  unfold encLen; simp [h]
+
+theorem natIntBytes_length_le_9 (n : Nat) (hn : n < 256 ^ 8) : (natIntBytes n).length ≤ 9 := by
+  have := natBE_length_le 8 n hn
+  unfold natIntBytes
+  split
+  · simp
+  · rename_i b bs hb
+    rw [hb] at this
+    simp only [List.length_cons] at this
+    split <;> simp only [List.length_cons] <;> omega
+
+theorem wf_bc (withCa : Bool) (n : Nat) (hn : n < 256 ^ 8) :
+    (Tlv.cons 0x30 ((if withCa then [tBool true] else []) ++ [tInt (n : Int)])).wf = true := by
+  have hlen := natIntBytes_length_le_9 n hn
+  have e1 : (encLen (natIntBytes n).length).length = 1 := encLen_length_small _ (by omega)
+  have e2 : (encLen 1).length = 1 := encLen_length_small 1 (by decide)
+  cases withCa <;>
+    simp only [Tlv.wf, wfList, tBool, tInt, intBytes, isCons, encList, Tlv.enc, List.length_append, List.length_cons,
+      List.length_nil, if_true, if_false, List.nil_append, List.cons_append, Bool.false_eq_true] <;>
+    simp [e1, e2] <;> (refine ⟨⟨by decide, ?_⟩, ?_⟩ <;> first | omega | (refine ⟨by decide, ?_⟩; first | omega | exact ⟨by decide, by omega⟩) | decide)
+
+/-- basic constraints: the CA flag and a non-zero path length are read back; at this level a zero path
+    length means "none" (the known finding C07-pathlen-zero is about exactly this) -/
+theorem C07_basic_constraints_roundtrip (ca : Bool) (n : Nat) (hn : n < 256 ^ 8) :
+    decBasicConstraints (Cert.basicConstraintsTlv ca n).enc = some (ca, if n = 0 then none else some n) := by
+  unfold decBasicConstraints Cert.basicConstraintsTlv tSeq
+  by_cases h0 : n = 0
+  · subst h0
+    cases ca
+    · simp only [if_true, Bool.false_eq_true, if_false, List.append_nil]
+      rw [decodeDer_enc _ (by decide)]; rfl
+    · simp only [if_true, List.append_nil]
+      rw [decodeDer_enc _ (by decide)]; rfl
+  · simp only [h0, if_false]
+    rw [decodeDer_enc _ (wf_bc ca n hn)]
+    cases ca <;> simp [tBool, tInt, intBytes, natIntBytes_canonical, decInt_natIntBytes]
+
+/-- key identifiers are carried as they are: OCTET STRING for the subject's, [0] for the authority's -/
+theorem C07_ski_roundtrip (k : Bytes) (hk : k.length < 2 ^ 64) : decSki (tOctet k).enc = some k := by
+  unfold decSki
+  rw [decodeDer_enc _ (by simp [tOctet, Tlv.wf, isCons, hk]; decide)]
+  rfl
+
+end C07
